@@ -58,7 +58,7 @@ func init() {
 	runners["C03"] = func(tier string) runner {
 		c := &c03{tier: tier, n: 3000, nEnvs: 5}
 		if tier == "thorough" {
-			c.n, c.nEnvs = 150000, 12
+			c.n, c.nEnvs = 100000, 12
 		}
 		c.st.Distinct = map[uint64]bool{}
 		c.st.Nontrivial = map[uint64]bool{}
